@@ -11,12 +11,18 @@ TOP_KINDS = ['def', 'class', 'moddoc', 'adef', 'decodef', 'def_nested_def', 'def
              'adef_nested_def', 'if_def', 'try_def', 'main_def', 'dupdef', 'imported', 'lambda', 'wrapsdef', 'decoadef']
 MEMBER_KINDS = ['method', 'amethod', 'static', 'classm', 'prop', 'decomethod', 'nested_class',
                 'method_nested_def']
+# definitions inside module-level control flow that does execute on import, guards that merely mention
+# __name__, and decorators that come from other modules - explored by their own spec (smaller layout set)
+BLOCK_TOP_KINDS = ['main_else_def', 'ifnot_main_def', 'ifne_main_def', 'ifor_main_def', 'else_def', 'except_def',
+                   'finally_def', 'for_def', 'with_def', 'while_def', 'cmdef', 'lrudef', 'if_class']
+BLOCK_MEMBER_KINDS = ['cmmethod', 'cachedprop', 'if_method']
 LAYOUTS = ['freeform1', 'none', 'freeform2', 'google1', 'google2', 'doctestblock', 'google_after_args', 'mixed']
 STYLES = ['auto', 'google', 'freeform']
 TOKEN_RE = re.compile(r'tok_\d+')
 
 HEADER = [
     'import functools',
+    'import contextlib',
     '',
     '',
     'def _deco(f):',
@@ -132,7 +138,7 @@ class Builder(object):
 
     def add(self, i, ev):
         kind, layout = ev
-        if kind in TOP_KINDS:
+        if kind in TOP_KINDS or kind in BLOCK_TOP_KINDS:
             self.cls = None
         if kind == 'moddoc':
             # only valid as the very first event: emitted before the header
@@ -176,6 +182,59 @@ class Builder(object):
         elif kind == 'lambda':
             self.emit('lam%s = lambda: 0' % n)
             self.emit('')
+        elif kind == 'main_else_def':
+            self.emit("if __name__ == '__main__':")
+            self.emit('    pass')
+            self.emit('else:')
+            self.func(4, 'mel' + n, layout)
+        elif kind == 'ifnot_main_def':
+            self.emit("if not (__name__ == '__main__'):")
+            self.func(4, 'inm' + n, layout)
+        elif kind == 'ifne_main_def':
+            self.emit("if __name__ != '__main__':")
+            self.func(4, 'ine' + n, layout)
+        elif kind == 'ifor_main_def':
+            self.emit("if __name__ == '__main__' or True:")
+            self.func(4, 'ior' + n, layout)
+        elif kind == 'else_def':
+            self.emit('if False:')
+            self.emit('    pass')
+            self.emit('else:')
+            self.func(4, 'els' + n, layout)
+        elif kind == 'except_def':
+            self.emit('try:')
+            self.emit('    raise KeyError(1)')
+            self.emit('except KeyError:')
+            self.func(4, 'exc' + n, layout)
+        elif kind == 'finally_def':
+            self.emit('try:')
+            self.emit('    pass')
+            self.emit('finally:')
+            self.func(4, 'fin' + n, layout)
+        elif kind == 'for_def':
+            self.emit('for _i in range(1):')
+            self.func(4, 'forl' + n, layout)
+        elif kind == 'with_def':
+            self.emit('with contextlib.suppress(KeyError):')
+            self.func(4, 'wit' + n, layout)
+        elif kind == 'while_def':
+            self.emit('while True:')
+            self.func(4, 'whl' + n, layout)
+            self.emit('    break')
+            self.emit('')
+        elif kind == 'cmdef':
+            self.func(0, 'cmf' + n, layout, decorators=('contextlib.contextmanager',))
+        elif kind == 'lrudef':
+            self.func(0, 'lru' + n, layout, decorators=('functools.lru_cache(None)',))
+        elif kind == 'if_class':
+            name = 'IK' + n
+            self.emit('if True:')
+            self.emit('    class %s(object):' % name)
+            groups = self.docstring(8, layout)
+            self.emit('        z = 0')
+            self.emit('')
+            self.inventory.append((name, groups))
+            self.func(8, 'ikm', 'freeform1', args='self', qual=name + '.ikm')
         elif kind == 'class':
             name = 'K' + n
             self.emit('class %s(object):' % name)
@@ -209,6 +268,13 @@ class Builder(object):
                 self.func(8, 'nm', 'freeform1', args='self', collect=False)
             elif kind == 'method_nested_def':
                 self.func(4, 'mn' + n, layout, args='self', qual=c + '.mn' + n, nested='def')
+            elif kind == 'cmmethod':
+                self.func(4, 'cmm' + n, layout, args='self', decorators=('contextlib.contextmanager',), qual=c + '.cmm' + n)
+            elif kind == 'cachedprop':
+                self.func(4, 'cpr' + n, layout, args='self', decorators=('functools.cached_property',), qual=c + '.cpr' + n)
+            elif kind == 'if_method':
+                self.emit('    if True:')
+                self.func(8, 'ifm' + n, layout, args='self', qual=c + '.ifm' + n)
             else:
                 raise KeyError(kind)
 
